@@ -155,10 +155,17 @@ func reloadBinary(t *testing.T, prop string) {
 		}
 		defs = append(defs, binDef{version: 3, empty: true})
 		watch := rapid.Bool().Draw(rt, "watch")
+		// in a third of the cases every version of the file carries the same modification time (a restore that keeps
+		// time stamps, a deployment that sets them): what the file says counts, not when it says it was written
+		sameMtime := rapid.IntRange(0, 2).Draw(rt, "sameModificationTime") == 0
+		stamp := time.Now().Add(-time.Hour).Truncate(time.Second)
 		writeDef := func(d binDef) {
 			tmp := filepath.Join(dir, "pipelines.yml.new")
 			if err := os.WriteFile(tmp, []byte(d.yaml(vh)), 0o666); err != nil {
 				rt.Fatalf("write: %v", err)
+			}
+			if sameMtime {
+				_ = os.Chtimes(tmp, stamp, stamp)
 			}
 			if err := os.Rename(tmp, filepath.Join(dir, "pipelines.yml")); err != nil {
 				rt.Fatalf("rename: %v", err)
@@ -320,6 +327,6 @@ func reloadBinary(t *testing.T, prop string) {
 				}
 			}
 		}
-		col.Add(plan+" "+defs[0].signature()+"|"+defs[1].signature()+"|"+defs[2].signature(), back, map[string]int{"watch": btoi(watch), "returns-to-earlier-version": btoi(back)}, len(seq), plan)
+		col.Add(plan+" "+defs[0].signature()+"|"+defs[1].signature()+"|"+defs[2].signature(), back, map[string]int{"watch": btoi(watch), "returns-to-earlier-version": btoi(back), "same-modification-time": btoi(sameMtime)}, len(seq), plan)
 	})
 }
